@@ -1,6 +1,8 @@
 import Qryn.LogQL.Process
 import Driver.C07
 import Driver.C11
+import Driver.C08
+import Qryn.LogQL.ProcessMetric
 import Qryn.TraceQL.Process
 namespace Driver.C14
 open Qryn Qryn.Sql Qryn.LogQL Driver.C07
@@ -33,7 +35,20 @@ def runsTDirty (dirty : Bool) (p : Qryn.TraceQL.PTree) : List Qryn.TraceQL.Ctx â
     let r := Qryn.TraceQL.processPlan p c
     r.2 :: runsTDirty dirty (if dirty then garbageTree r.1 else r.1) cs
 
+/-! ### metric LogQL: one prepared plan processed k times -/
+def mctxs? : Nat â†’ List String â†’ Option (List MCtx Ã— List String)
+  | 0, rest => some ([], rest)
+  | n + 1, toks => do
+    let (c, rest) â† Driver.C08.mctx? toks
+    let (cs, rest') â† mctxs? n rest
+    some (c :: cs, rest')
+
 def handle : List String â†’ Option String
+  | "c14runm" :: n :: args => do
+    let k â† n.toNat?
+    let (cs, rest) â† mctxs? k args
+    let (q, _) â† Driver.C08.query? rest
+    some (",".intercalate ((runsMetric {} q cs).map (fun s => hexOut (renderSel s))))
   | "c14runt" :: dirty :: n :: args => do
     let k â† n.toNat?
     let (cs, rest) â† tctxs? k args
